@@ -208,7 +208,13 @@ func sizeBucket(n int) string {
 	}
 }
 
-func main() {
+// virtualTime, when set (test binary: main_test.go), runs the scenarios that
+// need a synctest bubble.
+var virtualTime func(e *env)
+
+func main() { runHarness() }
+
+func runHarness() {
 	c := vh.Start("C07")
 	defer c.Finish()
 	c.Res.Rule = "case = one data path (meshconn, meshfwd, shellin, exit, forward, shellpty, shellout, file) x a script of write / read-block sizes; " +
@@ -386,6 +392,16 @@ func (e *env) runAll() {
 		c.Res.Extra["exhaustive_scope"] = "single block sizes 16200..16460 on the five scripted sender loops"
 	}
 
+	// seal + hand-over is one critical section where two goroutines share a key
+	e.twoPumps()
+	// receiver-side buffering under back-pressure
+	if virtualTime != nil {
+		virtualTime(e)
+	} else {
+		e.c.Note("built as a plain program: the virtual-time slow-consumer scenario was skipped")
+	}
+	e.slowConsumers()
+
 	// end to end through real receivers
 	e.runE2E()
 }
@@ -401,6 +417,14 @@ func (e *env) runOne(r caseRec) {
 			e.runScripted(r)
 		case r.Path == "shell-out-slow-consumer":
 			e.e2eShellSlowConsumer()
+		case r.Path == "two-pumps":
+			e.twoPumps()
+		case r.Path == "stream-buffer-virtual":
+			if virtualTime != nil {
+				virtualTime(e)
+			}
+		case r.Path == "slow-reader" || r.Path == "slow-destination":
+			e.slowConsumers()
 		default:
 			e.runE2E()
 		}
